@@ -61,7 +61,8 @@ def gen_program(rnd, pid, cls='A', nrt_only=False, feats=('send', 'tempo', 'spaw
         for _ in range(rnd.randint(1, 7)):
             x = rnd.random()
             if x < 0.45:
-                body.append(I('Y', a=rnd.choice(DELTAS)))
+                # b: how the number is written (0 float, 1 float subclass, 2 int subclass, 3 int) - same number
+                body.append(I('Y', a=rnd.choice(DELTAS), b=rnd.choice([0, 0, 0, 1, 2, 3])))
             elif x < 0.6 and 'send' in feats:
                 body.append(send())
             elif x < 0.7 and unplayed and 'spawn' in feats:
@@ -130,7 +131,19 @@ def gen_program(rnd, pid, cls='A', nrt_only=False, feats=('send', 'tempo', 'spaw
                 break
     for k in unplayed:          # never played: drop
         del bodies[k]
-    return fix_seed_inheritance(dict(id=pid, clocks=clocks, routines=bodies, main=main,
+    funcs = []
+    if 'func' in feats:
+        # plain functions scheduled on a clock from a routine (or the main thread): inside them the current thread is the
+        # main one, so what they send counts as sent "outside routines"
+        for k in list(bodies):
+            if k not in roots and rnd.random() < 0.35 and all(i['op'] in ('S', 'M', 'Y') for i in bodies[k]):
+                bodies[k] = [i for i in bodies[k] if i['op'] in ('S', 'M')]
+                funcs.append(k)
+    if 'yr' in feats:
+        for k, b in bodies.items():
+            if k not in funcs and b and rnd.random() < 0.2:
+                b.insert(rnd.randint(1, len(b)), I('YR', a=rnd.choice(DELTAS)))
+    return fix_seed_inheritance(dict(id=pid, clocks=clocks, routines=bodies, main=main, funcs=funcs,
                                      tail=rnd.choice([0, TU, TU // 2]), cls=cls))
 
 
@@ -179,7 +192,7 @@ def gen_rand_program(rnd, pid):
         if rnd.random() < 0.5:
             b.append(I('Y', a=rnd.choice(DELTAS)))
             draws(b)
-    return dict(id=pid, clocks=clocks, routines=bodies, main=[I('P', s='r0', c=c0)], tail=0, cls='B')
+    return dict(id=pid, clocks=clocks, routines=bodies, main=[I('P', s='r0', c=c0)], tail=0, cls='B', funcs=[])
 
 
 def gen_tie_program(rnd, pid):
@@ -221,7 +234,7 @@ def gen_tie_program(rnd, pid):
     order = list(names)
     if rnd.random() < 0.5:       # the director is not always the first one scheduled
         order = names[1:] + ['r0'] if rnd.random() < 0.5 else order
-    return dict(id=pid, clocks=clocks, routines=bodies, main=[I('P', s=r, c=c) for r in order], tail=0, cls='B')
+    return dict(id=pid, clocks=clocks, routines=bodies, main=[I('P', s=r, c=c) for r in order], tail=0, cls='B', funcs=[])
 
 
 def fix_seed_inheritance(prog):
@@ -269,7 +282,8 @@ def run_mode(ctx, progs, mode, nproc=16, hashseed='0'):
 
 def strip(tr):
     t = dict(tr)
-    t['prog'] = {k: v for k, v in tr['prog'].items() if k in ('clocks', 'routines', 'main')}
+    t['prog'] = {k: v for k, v in tr['prog'].items() if k in ('clocks', 'routines', 'main', 'funcs')}
+    t['prog'].setdefault('funcs', [])
     for k in ('broken', 'rawsha'):
         t.pop(k, None)
     return t
